@@ -4,6 +4,7 @@ import (
 	"flag"
 	"fmt"
 	"os"
+	"sort"
 	"strings"
 	"time"
 )
@@ -16,6 +17,7 @@ func main() {
 	par := flag.Int("par", 12, "parallel obligations")
 	verif := flag.String("verif", "/verif", "verification directory")
 	tier := flag.String("tier", "quick", "quick | thorough")
+	showModel := flag.String("model", "", "verify: print the model of failing obligations whose name contains this string")
 	flag.Parse()
 	keepQueries = *keep
 	args := flag.Args()
@@ -70,6 +72,13 @@ func main() {
 			for _, n := range r.Notes {
 				fmt.Println("   note:", n)
 			}
+			if r.vc != nil && r.vc.canary != nil {
+				res := solve(r.vc.query(r.vc.canary, false), 5*time.Second, *work, r.vc.canary.Name, false)
+				if res.Status == "unsat" {
+					fmt.Println("   VACUOUS: false is provable at exit (contradictory hypotheses)")
+					bad++
+				}
+			}
 			for _, o := range r.Obls {
 				mark := "ok  "
 				if o.Res.Status != "unsat" {
@@ -77,6 +86,27 @@ func main() {
 					bad++
 				}
 				fmt.Printf("   %s %-70s %-8s %-14s %.2fs  %s\n", mark, o.Name, o.Res.Status, o.Res.Solver, o.Res.TimeS, o.Pos)
+				if o.Res.Status != "unsat" && strings.HasPrefix(o.Res.Output, "; conjunct") {
+					l := strings.SplitN(o.Res.Output, "\n", 2)[0]
+					if len(l) > 700 {
+						l = l[:700]
+					}
+					fmt.Println("        " + l)
+				}
+				if *showModel != "" && o.Res.Status == "sat" && strings.Contains(o.Name, *showModel) {
+					m := parseModel(o.Res.Output)
+					var ks []string
+					for k := range m {
+						if strings.HasPrefix(k, "pc!") || strings.HasPrefix(k, "H.alloc") || strings.HasPrefix(k, "H.lock") || len(m[k]) > 120 {
+							continue
+						}
+						ks = append(ks, k)
+					}
+					sort.Strings(ks)
+					for _, k := range ks {
+						fmt.Printf("        %s = %s\n", k, m[k])
+					}
+				}
 			}
 		}
 		if bad > 0 {
